@@ -40,6 +40,31 @@ CHECKS = {
    note=NOTE + " C16: that declarations of one level commute at run time (GLOBALFUNC/GLOBALSTRUCT/SETMETHOD keyed by interned index) is NOT proved; it is checked by the permutation differential only (c16_full_partial in DESIGN.md).",
    technique="Coq proof of stable-sort uniqueness and layout invariance over the go2v-regenerated table + correspondence + metamorphic/differential runs",
    ref="DESIGN.md section 5 C16"),
+ "C02": dict(
+   text="Theorem c02_rules: for every rule of the table regenerated from compiler.go doOptimize, every matching window and EVERY frame state, executing the window equals executing the fused instruction (under the rule's explicit guard: numeric slot, int32 constant, 16-bit call operands, sign conditions); c02_optimizer_shape: the optimizer only replaces matched windows. The proof found the x - 0 / -0.0 defect (fixed). Correspondence: generic matcher vs real doOptimize (hook), model VM vs real VM on real compiled code (optimizer on/off alternating); system level: optimizer off vs on over every test-table string and generated programs (output, returned values+types, success/failure, error stage and line).",
+   note=NOTE + " C02: transparency of the optimizer across jumps (no jump targets the inside of a fused window; block lengths stable under re-optimisation) is NOT proved; covered by the third-pass-identity test and the off/on differential. Error LINE equality is checked by the differential only.",
+   technique="Coq proof of per-rule semantic equivalence over the go2v-regenerated rule table and the VM step model + correspondence + off/on differential",
+   ref="DESIGN.md section 5 C02"),
+ "C11": dict(
+   text="Theorems over all histories of slice statements and every growth oracle on Model/Slice.v against the Go slice semantics of GoSpec/GoSlice.v: c11_refine (each operation returns what Go returns, incl. the same panics), c11_alias, c11_append (in place within capacity, fresh array beyond), c11_copy (min of the lengths, overlap-correct), c11_bounds, c11_nil, c11_elemty. Correspondence through the host API and real opcodes (VerifExec) in lock-step on capacities (VerifCap); system level: generated slice programs vs the Go toolchain restricted to growth-policy-independent observations.",
+   note=NOTE + " C11: element types restricted to scalar tags in c11_elemty; RANGE/ITER exercised by scripts only. Two open known findings (copy count, nil-ness of s[:] / append(s)).",
+   technique="Coq refinement proof to a Go slice-store specification over all histories + lock-step correspondence + differential against go build",
+   ref="DESIGN.md section 5 C11"),
+ "C13": dict(
+   text="Theorems for all byte strings and indices: UTF-8 decoding spec (decode/encode round trip for every scalar value, canonical decoding, range offsets), c13_index (byte with tag uint8, Panic out of range), c13_slice, c13_range (= Go's range), c13_conv ([]byte/string/rune round trips), c13_cmp (bytewise lexicographic strict total order), c13_concat, c13_immutable, c13_copy, c13_lit (glue to strconv). Correspondence on 16 content classes incl. invalid UTF-8 through API, hooks and real opcodes; spec validated against the Go runtime; system level: literal spellings and operations vs the Go toolchain.",
+   note=NOTE + " C13: strconv.Unquote/UnquoteChar and text/scanner are Section variables / trusted; one open known finding ([]rune conversions).",
+   technique="Coq proofs over byte lists (UTF-8 spec + string operations of the model) + correspondence + differential against go build",
+   ref="DESIGN.md section 5 C13"),
+ "C14": dict(
+   text="Theorems: c14_total (printing is total on every well-formed heap, cycles included; termination by construction: three non-recursive layers), c14_depth_bound (at most two reference levels are dereferenced), c14_scalars, c14_nested (depth <= 2: model = Go's fmt rendering), c14_println, c14_decimal; c14_deep_refuted / c14_nil_refuted document the two open findings with machine-checked witnesses. Correspondence incl. cyclic graphs through the host API; system level vs the Go toolchain with nesting depth recorded per item.",
+   note=NOTE + " C14: float rendering is a Section variable shared by spec and model (goatlang calls fmt.Sprint); struct refs are compared with %+v; multi-entry maps excluded (property statement). Open known findings: nesting depth >= 3 elided, nil prints nil.",
+   technique="Coq proof (totality, dependency bound, agreement with a Gallina fmt spec on the depth<=2 fragment, refutation witnesses) + correspondence + differential",
+   ref="DESIGN.md section 5 C14"),
+ "C19": dict(
+   text="Theorems: c19_roundtrip / _wide / c19_tags over the constructors and accessors regenerated from value.go; c19_adapter (all six NewFunc forms, every arity, argument list and stack prefix), c19_call (wrong argument count, too few results, truncation, variadic packing), c19_func, c19_method (incl. variadic methods), c19_error (errors surface through nested Func calls), c19_frames. Correspondence: 11k cases through real CALL/CALLVARIADIC/VM.Func incl. natives calling back into scripts; host backing array untouched by VM.Func.",
+   note=NOTE + " C19: Model/Call.v is a hand transcription of NewFunc/newMethod/call/callReady/Func (tie by correspondence); btErr's message text is not modelled.",
+   technique="Coq proof over go2v-regenerated constructors/accessors and a stack-discipline model of the adapters + correspondence",
+   ref="DESIGN.md section 5 C19"),
 }
 NOT_APPLICABLE = []
 def main():
